@@ -1,6 +1,7 @@
 package props
 
 import (
+	"go/constant"
 	"fmt"
 	"go/token"
 	"strings"
@@ -134,8 +135,9 @@ func checkC14(e *Env) {
 			}
 		}
 		ex := ctx.ExitsUnder(enc, 0)
-		want := "call:(mice.Encoding).FormatDigestHeader(param:enc,invoke:hash.Hash.Sum(call:sha256.New(),const:nil))"
-		if !wrote && len(ex) == 1 && ex[0] == want && len(flagStoresFrom(ctx, enc, nil)) == 1 && flagStoresFrom(ctx, enc, nil)[0] == "0" {
+		// SHA-256 over the single byte 0: New/Write/Sum, or Sum256 of the literal
+		want := "call:(mice.Encoding).FormatDigestHeader(param:enc,{invoke:hash.Hash.Sum(call:sha256.New(),const:nil)|call:sha256.Sum256(alloc:[1]byte)})"
+		if !wrote && len(ex) == 1 && prov.Match(want, ex[0]) && len(flagStoresFrom(ctx, enc, nil)) == 1 && flagStoresFrom(ctx, enc, nil)[0] == "0" {
 			e.R.OK("TABLE", "Encode:draft03-empty", e.P.Pos(enc.Pos()), "empty payload: nothing is written, the digest is that of SHA-256(0x00)").Config = c.name
 		} else {
 			e.R.Fail("TABLE", "Encode:draft03-empty", e.P.Pos(enc.Pos()), "draft-03 empty payload must encode as the empty message with digest SHA-256(0x00)",
@@ -202,6 +204,9 @@ func checkC14(e *Env) {
 		gate.Cmp("N.nonzero", "local:recordSize", token.NEQ, "const:0"),
 		gate.Cmp("N.max", "local:recordSize", token.LEQ, "param:maxRecordSize"),
 		gate.CallBool("N.empty-valid", "mice.validateRecord", true, "const:nil", tTop, "const:true"),
+		// the empty-stream shortcut: an unreadable size is refused unless it is the EOF of a non-draft-02 stream
+		errIs("N.empty-eof", "call:binary.Read(param:r,global:binary.BigEndian,local:recordSize)", "global:io.EOF"),
+		gate.Cmp("N.empty-not-draft02", "param:enc", token.NEQ, `const:"mi-sha256-draft2"`),
 	}, "digest header parses, record size readable, 0 < record size <= maxRecordSize, empty stream matches SHA-256(0x00)")
 	e.R.Floor("REJECT", 4)
 	e.R.Floor("ORDER", 8)
@@ -248,7 +253,8 @@ func clampPhi(e *Env, enc *ssa.Function) {
 				case "len(param:buf)":
 					// must come from the edge where (i+1)*rs > len(buf)
 					if !dominatedOrEdge(pb, b, func(f gate.Fact) bool {
-						return f.Kind == gate.FCmp && f.Op == token.GTR && prov.Of(f.X) == "((rangeidx + const:1) * param:recordSize)" && prov.Of(f.Y) == "len(param:buf)"
+						const hi, ln = "((rangeidx + const:1) * param:recordSize)", "len(param:buf)"
+						return f.Kind == gate.FCmp && ((f.Op == token.GTR && prov.Of(f.X) == hi && prov.Of(f.Y) == ln) || (f.Op == token.LSS && prov.Of(f.X) == ln && prov.Of(f.Y) == hi))
 					}) {
 						okk = false
 					}
@@ -283,70 +289,88 @@ func dominatedOrEdge(from, to *ssa.BasicBlock, pred func(gate.Fact) bool) bool {
 	return dominatedBy(from, pred)
 }
 
-// proofChain: hash inputs of the backward loop.
-func proofChain(e *Env, enc *ssa.Function) {
-	name := "signedexchange/mice.(Encoding).Encode"
-	var lastBlk, midBlk *ssa.BasicBlock
+// encodeArms identifies the two hashing arms of Encode's proof loop by their
+// shape: the arm of the last record hashes an open-ended slice of the payload
+// and a flag; the arm of every other record hashes a bounded slice, a proof
+// read from the proof table and a flag.
+func encodeArms(enc *ssa.Function) (last, mid []*ssa.Call) {
 	for _, b := range enc.Blocks {
-		n := 0
+		var ws []*ssa.Call
 		hasProofRead := false
 		for _, in := range b.Instrs {
 			if c, ok := in.(*ssa.Call); ok && prov.CalleeName(&c.Call) == "invoke:hash.Hash.Write" {
-				n++
+				ws = append(ws, c)
 				if strings.HasPrefix(prov.Of(c.Call.Args[0]), "make([][]byte,") {
 					hasProofRead = true
 				}
 			}
 		}
-		if n == 2 && !hasProofRead && blockHasFormat(b) == false {
-			lastBlk = b
+		if len(ws) == 2 && !hasProofRead && !blockHasFormat(b) {
+			if sl, ok := ws[0].Call.Args[0].(*ssa.Slice); ok && prov.Of(sl.X) == "param:buf" {
+				last = ws
+			}
 		}
-		if n == 3 && hasProofRead {
-			midBlk = b
+		if len(ws) == 3 && hasProofRead {
+			mid = ws
 		}
 	}
-	if lastBlk == nil || midBlk == nil {
+	return
+}
+
+// proofChain: hash inputs of the proof loop, which visits the records from the
+// last one backwards (counting i up with rec = N-i-1, or counting rec down).
+func proofChain(e *Env, enc *ssa.Function) {
+	name := "signedexchange/mice.(Encoding).Encode"
+	lw, mw := encodeArms(enc)
+	if lw == nil || mw == nil {
 		e.R.Undecided("CHAIN", name+":hash-blocks", e.P.Pos(enc.Pos()), "cannot identify the two hashing arms of the proof loop")
 		return
 	}
-	writes := func(b *ssa.BasicBlock) []*ssa.Call {
-		var out []*ssa.Call
+	isConst := func(v ssa.Value, n int64) bool {
+		k, ok := v.(*ssa.Const)
+		return ok && k.Value != nil && k.Value.Kind() == constant.Int && k.Int64() == n
+	}
+	var nrec ssa.Value // the value that sizes the proof table
+	for _, b := range enc.Blocks {
 		for _, in := range b.Instrs {
-			if c, ok := in.(*ssa.Call); ok && prov.CalleeName(&c.Call) == "invoke:hash.Hash.Write" {
-				out = append(out, c)
+			if ms, ok := in.(*ssa.MakeSlice); ok && strings.HasPrefix(prov.Of(ms), "make([][]byte,") {
+				nrec = ms.Len
 			}
 		}
-		return out
 	}
-	// last record: buf[rec*rs:], then the flag
-	lw := writes(lastBlk)
-	sl, ok := lw[0].Call.Args[0].(*ssa.Slice)
-	if ok && prov.Of(sl.X) == "param:buf" && sl.High == nil && sl.Low != nil && flagOf(lw[1]) == "0" {
+	// rec*rs as a value: returns rec
+	recOf := func(v ssa.Value) ssa.Value {
+		if m, ok := v.(*ssa.BinOp); ok && m.Op == token.MUL && prov.Of(m.Y) == "param:recordSize" {
+			return m.X
+		}
+		return nil
+	}
+	// last record: buf[rec*rs:], then the flag 0
+	sl, _ := lw[0].Call.Args[0].(*ssa.Slice)
+	if sl != nil && sl.High == nil && sl.Low != nil && recOf(sl.Low) != nil && flagOf(lw[1]) == "0" {
 		e.R.OK("CHAIN", name+":last-record-input", e.P.InstrPos(lw[0]), "last record hashes buf[rec*rs:] and then the flag byte 0x00")
 	} else {
-		e.R.Fail("CHAIN", name+":last-record-input", e.P.InstrPos(lw[0]), "the last record's proof is not SHA-256(record || flag)")
+		e.R.Fail("CHAIN", name+":last-record-input", e.P.InstrPos(lw[0]), "the last record's proof is not SHA-256(record || flag 0)")
 	}
-	// the arm is taken for i == 0 only
-	if dominatedBy(lastBlk, func(f gate.Fact) bool {
-		return f.Kind == gate.FCmp && f.Op == token.EQL && prov.Of(f.X) == "phi((↺ + const:1)|const:0)" && prov.Of(f.Y) == "const:0"
-	}) {
-		e.R.OK("CHAIN", name+":last-record-arm", e.P.InstrPos(lw[0]), "the flag-0 arm is the first iteration of the backward loop (the last record)")
-	} else {
-		e.R.Fail("CHAIN", name+":last-record-arm", e.P.InstrPos(lw[0]), "the last-record arm is not selected by i == 0")
-	}
-	// other records: buf[rec*rs:(rec+1)*rs], proofs[rec+1], flag
-	mw := writes(midBlk)
-	sl2, ok2 := mw[0].Call.Args[0].(*ssa.Slice)
-	var recIdx ssa.Value
+	// other records: buf[rec*rs : rec*rs+rs], proofs[rec+1], flag 1
+	sl2, _ := mw[0].Call.Args[0].(*ssa.Slice)
+	var rec ssa.Value
 	okRec := false
-	if ok2 && prov.Of(sl2.X) == "param:buf" && sl2.Low != nil && sl2.High != nil {
-		// low = rec*rs, high = (rec+1)*rs
-		lo, okl := sl2.Low.(*ssa.BinOp)
-		hi, okh := sl2.High.(*ssa.BinOp)
-		if okl && okh && lo.Op == token.MUL && hi.Op == token.MUL && prov.Of(lo.Y) == "param:recordSize" && prov.Of(hi.Y) == "param:recordSize" {
-			recIdx = lo.X
-			if add, ok := hi.X.(*ssa.BinOp); ok && add.Op == token.ADD && add.X == recIdx && prov.Of(add.Y) == "const:1" {
-				okRec = true
+	if sl2 != nil && prov.Of(sl2.X) == "param:buf" && sl2.Low != nil && sl2.High != nil {
+		rec = recOf(sl2.Low)
+		if rec != nil {
+			switch hi := sl2.High.(type) {
+			case *ssa.BinOp:
+				// (rec+1)*rs
+				if r2 := recOf(hi); r2 != nil {
+					if add, ok := r2.(*ssa.BinOp); ok && add.Op == token.ADD && add.X == rec && isConst(add.Y, 1) {
+						okRec = true
+					}
+				}
+				// rec*rs + rs
+				if hi.Op == token.ADD && ((hi.X == sl2.Low && prov.Of(hi.Y) == "param:recordSize") || (hi.Y == sl2.Low && prov.Of(hi.X) == "param:recordSize")) {
+					okRec = true
+				}
 			}
 		}
 	}
@@ -355,11 +379,10 @@ func proofChain(e *Env, enc *ssa.Function) {
 	} else {
 		e.R.Fail("CHAIN", name+":record-input", e.P.InstrPos(mw[0]), "a non-last record does not hash exactly its rs bytes")
 	}
-	// second input: proofs[rec+1]
 	okNext := false
 	if u, ok := mw[1].Call.Args[0].(*ssa.UnOp); ok {
 		if ia, ok := u.X.(*ssa.IndexAddr); ok {
-			if add, ok := ia.Index.(*ssa.BinOp); ok && add.Op == token.ADD && recIdx != nil && add.X == recIdx && prov.Of(add.Y) == "const:1" {
+			if add, ok := ia.Index.(*ssa.BinOp); ok && add.Op == token.ADD && rec != nil && add.X == rec && isConst(add.Y, 1) {
 				okNext = true
 			}
 		}
@@ -367,15 +390,14 @@ func proofChain(e *Env, enc *ssa.Function) {
 	if okNext && flagOf(mw[2]) == "1" {
 		e.R.OK("CHAIN", name+":successor-proof", e.P.InstrPos(mw[1]), "then the proof of its successor (proofs[rec+1]), then the flag byte 0x01")
 	} else {
-		e.R.Fail("CHAIN", name+":successor-proof", e.P.InstrPos(mw[1]), "a non-last record's proof does not chain the successor's proof (proofs[rec+1]) before the flag")
+		e.R.Fail("CHAIN", name+":successor-proof", e.P.InstrPos(mw[1]), "a non-last record's proof does not chain the successor's proof (proofs[rec+1]) before the flag 1")
 	}
-	// the result is stored at proofs[rec]
 	okStore := false
 	for _, b := range enc.Blocks {
 		for _, in := range b.Instrs {
 			if st, ok := in.(*ssa.Store); ok {
 				if ia, ok := st.Addr.(*ssa.IndexAddr); ok && strings.HasPrefix(prov.Of(ia.X), "make([][]byte,") {
-					if ia.Index == recIdx && prov.Of(st.Val) == "invoke:hash.Hash.Sum(call:sha256.New(),const:nil)" {
+					if ia.Index == rec && prov.Of(st.Val) == "invoke:hash.Hash.Sum(call:sha256.New(),const:nil)" {
 						okStore = true
 					}
 				}
@@ -387,11 +409,61 @@ func proofChain(e *Env, enc *ssa.Function) {
 	} else {
 		e.R.Fail("CHAIN", name+":proof-stored-at-rec", e.P.Pos(enc.Pos()), "the computed proof is not stored at the index of the record it covers")
 	}
-	// rec = numRecords - i - 1
-	if recIdx != nil && prov.Match("((* - phi((↺ + const:1)|const:0)) - const:1)", prov.Of(recIdx)) && sameAsProofLen(enc, recIdx) {
-		e.R.OK("CHAIN", name+":backward-order", e.P.Pos(enc.Pos()), "rec = numRecords - i - 1: proofs are computed from the last record backwards")
+	// rec runs N-1, N-2, ..., 0; the last-record arm is taken exactly for rec == N-1
+	backward, lastArm := false, false
+	lastBlk := lw[0].Block()
+	nMinus1 := func(v ssa.Value) bool {
+		b, ok := v.(*ssa.BinOp)
+		return ok && b.Op == token.SUB && b.X == nrec && isConst(b.Y, 1)
+	}
+	switch r := rec.(type) {
+	case *ssa.BinOp:
+		// rec = (N - i) - 1, i counting up from 0 while i < N
+		if r.Op == token.SUB && isConst(r.Y, 1) {
+			if inner, ok := r.X.(*ssa.BinOp); ok && inner.Op == token.SUB && inner.X == nrec {
+				if ph, ok := inner.Y.(*ssa.Phi); ok && prov.Of(ph) == "phi((↺ + const:1)|const:0)" {
+					if ifi, ok := ph.Block().Instrs[len(ph.Block().Instrs)-1].(*ssa.If); ok {
+						if c, ok := ifi.Cond.(*ssa.BinOp); ok && c.Op == token.LSS && c.X == ssa.Value(ph) && c.Y == nrec {
+							backward = true
+						}
+					}
+					lastArm = dominatedBy(lastBlk, func(f gate.Fact) bool {
+						return f.Kind == gate.FCmp && f.Op == token.EQL && f.X == ssa.Value(ph) && isConst(f.Y, 0)
+					})
+				}
+			}
+		}
+	case *ssa.Phi:
+		// rec counts down from N-1 while rec >= 0
+		var init ssa.Value
+		dec := false
+		for _, ed := range r.Edges {
+			if b, ok := ed.(*ssa.BinOp); ok && b.Op == token.SUB && b.X == ssa.Value(r) && isConst(b.Y, 1) {
+				dec = true
+			} else {
+				init = ed
+			}
+		}
+		if dec && init != nil && nMinus1(init) {
+			if ifi, ok := r.Block().Instrs[len(r.Block().Instrs)-1].(*ssa.If); ok {
+				if c, ok := ifi.Cond.(*ssa.BinOp); ok && c.X == ssa.Value(r) && ((c.Op == token.GEQ && isConst(c.Y, 0)) || (c.Op == token.GTR && isConst(c.Y, -1))) {
+					backward = true
+				}
+			}
+			lastArm = dominatedBy(lastBlk, func(f gate.Fact) bool {
+				return f.Kind == gate.FCmp && f.Op == token.EQL && f.X == ssa.Value(r) && (f.Y == init || nMinus1(f.Y))
+			})
+		}
+	}
+	if backward {
+		e.R.OK("CHAIN", name+":backward-order", e.P.Pos(enc.Pos()), "rec takes the values N-1, N-2, ..., 0 for the N that sizes the proof table: proofs are computed from the last record backwards")
 	} else {
 		e.R.Fail("CHAIN", name+":backward-order", e.P.Pos(enc.Pos()), "the proof loop does not run from the last record backwards")
+	}
+	if lastArm {
+		e.R.OK("CHAIN", name+":last-record-arm", e.P.InstrPos(lw[0]), "the flag-0 arm is taken exactly for the last record (rec == N-1)")
+	} else {
+		e.R.Fail("CHAIN", name+":last-record-arm", e.P.InstrPos(lw[0]), "the last-record arm is not selected by rec == N-1")
 	}
 }
 
@@ -436,23 +508,3 @@ func flagOf(c *ssa.Call) string {
 	return val
 }
 
-// sameAsProofLen: rec = (N - i) - 1 where N is the very value that sizes the
-// proof table.
-func sameAsProofLen(fn *ssa.Function, rec ssa.Value) bool {
-	outer, ok := rec.(*ssa.BinOp)
-	if !ok {
-		return false
-	}
-	inner, ok := outer.X.(*ssa.BinOp)
-	if !ok {
-		return false
-	}
-	for _, b := range fn.Blocks {
-		for _, in := range b.Instrs {
-			if ms, ok := in.(*ssa.MakeSlice); ok && strings.HasPrefix(prov.Of(ms), "make([][]byte,") {
-				return ms.Len == inner.X
-			}
-		}
-	}
-	return false
-}
